@@ -3,7 +3,7 @@ import copy, json, os, random, sys, collections
 from . import core, engine, gen, canon, oracles as O
 
 QUICK_N = {"default": 240}
-THOROUGH_MULT = 200
+THOROUGH_MULT = 80
 
 
 def _routes(a):
@@ -16,7 +16,7 @@ class Prop:
     theorems = []
     streams = [("sparse", 1)]
     rule = ""
-    n_quick = 240
+    n_quick = 600
     assumptions = []
 
     # ---- planning
@@ -124,7 +124,7 @@ class C01(Prop):
 class C02(Prop):
     pid = "C02"
     module = "TrVerif.Props.C02"
-    streams = [("sparse", 2), ("dense", 2), ("overlap", 1), ("parallel", 2), ("xfer", 1), ("hours", 1), ("closer", 1)]
+    streams = [("sparse", 2), ("dense", 2), ("overlap", 1), ("parallel", 2), ("xfer", 1), ("hours", 1), ("closer", 1), ("twoends", 2)]
     rule = ("datasets with several scenarios (service / only / except lists) and every encoding of the limits (absent, <= 0, tight, loose); "
             "non-trivial = a route was returned; distinct (dataset, answer)")
 
@@ -151,7 +151,7 @@ class C02(Prop):
 class C03(Prop):
     pid = "C03"
     module = "TrVerif.Props.C03"
-    streams = [("sparse", 2), ("dense", 3), ("overlap", 1), ("parallel", 1), ("xfer", 1), ("hours", 2), ("tmpl", 1)]
+    streams = [("sparse", 2), ("dense", 3), ("overlap", 1), ("parallel", 1), ("xfer", 1), ("hours", 2), ("tmpl", 1), ("twoends", 2)]
     rule = ("departure-time route requests with max_first_waiting_time <= 0 on datasets with strictly positive hop times; "
             "non-trivial = an admissible journey exists (reference optimum defined); distinct (dataset, request)")
 
@@ -184,7 +184,7 @@ class C03(Prop):
 class C04(C03):
     pid = "C04"
     module = "TrVerif.Props.C04"
-    streams = [("sparse", 2), ("dense", 4), ("overlap", 1), ("parallel", 1), ("hours", 2), ("tmpl", 1), ("closer", 2)]
+    streams = [("sparse", 2), ("dense", 4), ("overlap", 1), ("parallel", 1), ("hours", 2), ("tmpl", 1), ("closer", 2), ("twoends", 2)]
     rule = ("arrival-time route requests on datasets with positive hop times and no `transferable` line; dense stream gives competing "
             "departures within one minimum-waiting window; non-trivial = journey exists; distinct (dataset, request)")
 
@@ -214,7 +214,7 @@ class C04(C03):
 class C05(C03):
     pid = "C05"
     module = "TrVerif.Props.C05"
-    streams = [("sparse", 2), ("dense", 4), ("overlap", 1), ("parallel", 1), ("hours", 2), ("tmpl", 1), ("closer", 2)]
+    streams = [("sparse", 2), ("dense", 4), ("overlap", 1), ("parallel", 1), ("hours", 2), ("tmpl", 1), ("closer", 2), ("twoends", 2)]
     rule = ("departure-time requests (cap disabled) on the C03+C04 domain; the reported departure is compared with the latest departure "
             ">= requested that still meets the reported arrival; non-trivial = success; distinct (dataset, request)")
 
@@ -241,7 +241,7 @@ class C05(C03):
 class C06(Prop):
     pid = "C06"
     module = "TrVerif.Props.C06"
-    streams = [("tmpl", 2), ("overlap", 2), ("sparse", 1), ("dense", 1), ("xfer", 2), ("parallel", 2), ("closer", 1)]
+    streams = [("tmpl", 2), ("overlap", 2), ("sparse", 1), ("dense", 1), ("xfer", 5), ("parallel", 2), ("closer", 1)]
     rule = ("every route of every successful answer (single and alternatives); non-trivial = route with >= 1 boarding; distinct (dataset, answer); "
             "counts/walking totals are only demanded for routes without `transferable` lines")
 
@@ -264,7 +264,7 @@ class C06(Prop):
 class C07(Prop):
     pid = "C07"
     module = "TrVerif.Props.C07"
-    streams = [("sparse", 3), ("dense", 1), ("hours", 4), ("xfer", 1), ("overlap", 1)]
+    streams = [("sparse", 3), ("dense", 1), ("hours", 4), ("xfer", 1), ("overlap", 1), ("twoends", 2)]
     rule = ("route, alternatives and accessibility requests that yield no route; each of the eight reasons is aimed at (tight access/egress "
             "maxima, late/early requests, tight max_travel_time, first-wait cap); non-trivial = a no_routing_found answer; distinct (dataset, request)")
 
@@ -335,7 +335,7 @@ class C07(Prop):
 class C08(Prop):
     pid = "C08"
     module = "TrVerif.Props.C08"
-    streams = [("sparse", 2), ("dense", 2), ("overlap", 1), ("parallel", 1), ("xfer", 1), ("hours", 2), ("tmpl", 1)]
+    streams = [("sparse", 2), ("dense", 2), ("overlap", 1), ("parallel", 1), ("xfer", 1), ("hours", 2), ("tmpl", 1), ("twoends", 2)]
     rule = ("departure-time accessibility requests with the first-wait cap disabled on datasets with positive hop times; "
             "non-trivial = at least one stop listed; distinct (dataset, request)")
     forward = True
@@ -379,7 +379,7 @@ class C08(Prop):
 class C09(C08):
     pid = "C09"
     module = "TrVerif.Props.C09"
-    streams = [("sparse", 2), ("dense", 3), ("overlap", 1), ("parallel", 1), ("hours", 2), ("tmpl", 1), ("closer", 2)]
+    streams = [("sparse", 2), ("dense", 3), ("overlap", 1), ("parallel", 1), ("hours", 2), ("tmpl", 1), ("closer", 2), ("twoends", 2)]
     rule = ("arrival-time accessibility requests on datasets with positive hop times and uniform minimum waiting; "
             "non-trivial = at least one stop listed; distinct (dataset, request)")
     forward = False
